@@ -287,16 +287,22 @@ Example ex_eval :
   /\ option_map (map rch) (lookup 7 (eval_whole ex_src [] ex_graph)) = Some [6; 7; 8; 17].
 Proof. vm_compute. repeat split. Qed.
 
+(* the source stream is a tight well-formed chunking with an empty zero-duration chunk and a zero-length row that
+   starts a chunk (never ends one) *)
+Example ex_stream_chunking : chunking_of 1 (Some 0) ex_rows 0 20 ex_stream.
+Proof.
+  unfold chunking_of, tiles, uniform, ex_stream, ex_rows. split.
+  - split; [discriminate|]. split; [|split; [|split]].
+    + repeat constructor; cbn; try lia; repeat constructor; cbn; lia.
+    + repeat constructor; cbn; lia.
+    + cbn. repeat split; reflexivity.
+    + reflexivity.
+  - repeat constructor.
+Qed.
+
 Example ex_graph_ok : graph_ok (fun _ _ => True) 20 ex_src ex_given [] ex_graph.
 Proof.
-  assert (HS : chunking_of 1 (Some 0) ex_rows 0 20 ex_stream).
-  { unfold chunking_of, tiles, uniform, ex_stream, ex_rows. split.
-    - split; [discriminate|]. split; [|split; [|split]].
-      + repeat constructor; cbn; try lia; repeat constructor; cbn; lia.
-      + repeat constructor; cbn; lia.
-      + cbn. repeat split; reflexivity.
-      + reflexivity.
-    - repeat constructor. }
+  pose proof ex_stream_chunking as HS.
   unfold ex_graph. cbn [graph_ok n_comp n_deps n_id n_meta comp_ok].
   unfold given_ok, arity_ok, data_ok, ex_given. cbn [n_comp n_deps n_id n_meta].
   repeat match goal with |- _ /\ _ => split end;
@@ -307,3 +313,12 @@ Proof.
     try (repeat constructor; discriminate).
   cbn. exists 1, (Some 0). exact HS.
 Qed.
+
+(* the partial theorem instantiated: alignment hypothesis discharged by align_one_ok, graph hypotheses by ex_graph_ok *)
+Example ex_theorem_instance :
+  exists env, eval_graph align_one ex_given [] ex_graph = Ok env /\
+    match lookup 7 env with
+    | Some cs => exists R, lookup 7 (eval_whole ex_src [] ex_graph) = Some R /\ tiles R 0 20 cs
+    | None => lookup 7 (eval_whole ex_src [] ex_graph) = None
+    end.
+Proof. exact (results_chunking_independent align_one (fun _ _ => True) align_one_ok 20 ex_src ex_given ex_graph 7 ex_graph_ok). Qed.
